@@ -79,7 +79,7 @@ def gen(seed, tier):
         n = rng.choice([3, 5, 8])
         ops = [H.gen_tree(rng, d + 1, n, (1, 2, -3, 7, 0), dflt) for _ in range(kk)]
         yield {"prop": PROP, "op": rng.choice(["nand", "nor", "lf"]), "d": d, "dflt": dflt, "ops": ops,
-               "kind": "owned" if d >= 1 else rng.choice(["free", "owned"]),
+               "kind": rng.choice(["free", "owned"]),
                "stale": rng.random() < 0.3}
     yield from gen_tuple(seed, tier)
 
@@ -108,7 +108,9 @@ def gen_tuple(seed, tier):
         b = _tuple_fibers(rng, kb, 3, pool, dflt, 6)
         # a k-tuple operand of arity 1 may also be given with plain int coordinates
         yield {"prop": PROP, "op": "tuple", "opk": opk, "ka": ka, "kb": kb, "dflt": dflt, "a": a, "b": b,
-               "kind": "free", "intA": ka == 1 and kb > 1 and rng.random() < 0.5, "intB": kb == 1 and ka > 1 and rng.random() < 0.5}
+               "kind": "free", "intA": ka == 1 and kb > 1 and rng.random() < 0.5, "intB": kb == 1 and ka > 1 and rng.random() < 0.5,
+               # either operand may arrive lazy (an all-pass prune: same coordinates, the same stored payload objects)
+               "lazyA": rng.random() < 0.3, "lazyB": rng.random() < 0.3}
 
 
 def _run_tuple(case):
@@ -124,14 +126,17 @@ def _run_tuple(case):
 
     def cj(c):
         return list(c) if isinstance(c, tuple) else [c]
+    def arg(f, lazy):
+        return f.prune(lambda n, c, p: True) if lazy else f
     try:
         opk = case["opk"]
+        xa, xb = arg(fa, case.get("lazyA")), arg(fb, case.get("lazyB"))
         if opk == "and":
-            rows = [[cj(c), _ref(fa, pa, dflt), _ref(fb, pb, dflt)] for c, (pa, pb) in fa & fb]
+            rows = [[cj(c), _ref(fa, pa, dflt), _ref(fb, pb, dflt)] for c, (pa, pb) in xa & xb]
         elif opk == "sub":
-            rows = [[cj(c), _ref(fa, pa, dflt)] for c, pa in fa - fb]
+            rows = [[cj(c), _ref(fa, pa, dflt)] for c, pa in xa - xb]
         else:
-            z = (fa | fb) if opk == "or" else (fa ^ fb)
+            z = (xa | xb) if opk == "or" else (xa ^ xb)
             rows = [[cj(c), m, _ref(fa, pa, dflt), _ref(fb, pb, dflt)] for c, (m, pa, pb) in z]
         case["impl"] = rows
         if _has_foreign(rows):
@@ -166,6 +171,18 @@ def _ref(fiber, p, dflt, leaf=None):
         FRESH.append(p)
         return -1
     return -2
+
+
+def _leafflag(f, d, kind):
+    """what kind of fresh default the operand `f` (of a case with d+1 levels) must deliver: True = a boxed
+    scalar, False = an element-less fiber, None = unknowable (an unowned, element-less fiber of depth >= 2 cannot
+    know that its payloads are fibers)"""
+    if d == 0:
+        return True
+    if kind == "owned":
+        return False
+    Fiber = H.ft().Fiber
+    return False if any(isinstance(p, Fiber) for p in f.payloads) else None
 
 
 def _fresh_distinct(side):
@@ -222,6 +239,11 @@ def _run_nary(case):
     before = ([H.snapshot(f) for f in fibers], [_ranks(t) for t in tensors])
     side = {}
     get = ft.Payload.get      # the payload tuple may or may not arrive boxed
+    lf_ = [_leafflag(f, d, case["kind"]) for f in fibers]
+    _r = globals()["_ref"]
+
+    def _ref(f, p, dv):        # n-ary forms: the expected kind of a fresh default is per operand
+        return _r(f, p, dv, lf_[[id(x) for x in fibers].index(id(f))])
     try:
         form = case.get("form")
         if op == "nand" and form in ("right", "left", "hoisted") and len(fibers) == 3:
@@ -269,6 +291,7 @@ def run(case):
     # an unowned fiber of depth >= 2 that holds no element cannot know that its default is a fiber (it
     # guesses a boxed scalar): the kind of the fresh default is enforced for leaf ranks and tensor operands
     leaf = True if d == 0 else (False if case["kind"] == "owned" else None)
+    leafA = leafB = leaf
     fa = H.build_fiber(case["a"], d + 1, dflt)
     fb = H.build_fiber(case["b"], d + 1, dfltB)
     tensors = []
@@ -295,12 +318,14 @@ def run(case):
         fa, fb = ta.getRoot(), tb.getRoot()
     before = (H.snapshot(fa), H.snapshot(fb), [_ranks(t) for t in tensors])
     side = {}
+    leafA, leafB = _leafflag(fa, d, case["kind"]), _leafflag(fb, d, case["kind"])
+
     def rows_of(z):
         if op == "and":
-            return [[c, _ref(fa, pa, dflt, leaf), _ref(fb, pb, dfltB, leaf)] for c, (pa, pb) in z]
+            return [[c, _ref(fa, pa, dflt, leafA), _ref(fb, pb, dfltB, leafB)] for c, (pa, pb) in z]
         if op == "sub":
-            return [[c, _ref(fa, pa, dflt, leaf)] for c, pa in z]
-        return [[c, m, _ref(fa, pa, dflt, leaf), _ref(fb, pb, dfltB, leaf)] for c, (m, pa, pb) in z]
+            return [[c, _ref(fa, pa, dflt, leafA)] for c, pa in z]
+        return [[c, m, _ref(fa, pa, dflt, leafA), _ref(fb, pb, dfltB, leafB)] for c, (m, pa, pb) in z]
 
     def make():
         return {"and": lambda: fa & fb, "sub": lambda: fa - fb, "or": lambda: fa | fb, "xor": lambda: fa ^ fb}[op]()
